@@ -17,32 +17,51 @@ PROP = "C01"
 THEOREMS = [
     "IrVerif.Kernel.C01_init",
     "IrVerif.Kernel.C01_step",
+    "IrVerif.Kernel.C01_mutation_faithful",
+    "IrVerif.Kernel.C01_rename_faithful",
     "IrVerif.Kernel.C01_step_conv",
     "IrVerif.Kernel.C01_step_any",
     "IrVerif.Kernel.C01_history",
     "IrVerif.Kernel.C01_history_from",
+    "IrVerif.Kernel.C01_use_iff",
+    "IrVerif.Kernel.C01_uses_nodup",
+    "IrVerif.Kernel.C01_producer_iff",
+    "IrVerif.Kernel.C01_node_iff",
+    "IrVerif.Kernel.C01_nodes_nodup",
+    "IrVerif.Kernel.C01_input_iff",
+    "IrVerif.Kernel.C01_output_iff",
+    "IrVerif.Kernel.C01_initializer_iff",
+    "IrVerif.Kernel.C01_initializer_key",
+    "IrVerif.Kernel.C01_roots",
+    "IrVerif.Kernel.C01_counters",
     "IrVerif.Kernel.C01_node_sequence_refined",
     "IrVerif.Kernel.C01_node_sequence_history",
     "IrVerif.Kernel.C01_graph_calls_use_seq",
 ]
 ASSUMPTIONS = [
-    "alphabet: Value(...), const_value=, Node(...) (inputs, num_outputs / outputs, graph=, name), Graph(...), "
-    "replace_input_with, resize_inputs/outputs, Value.replace_all_uses_with, every mutator of the tracked "
-    "input/output lists (append extend insert pop remove clear [i]= [a:b:c]= del[i] del[a:b:c] reverse += *=) and of "
-    "the initializer mapping (d[k]= del d[k] add pop popitem clear update |= setdefault register_initializer), "
-    "Value.name=, Graph/Function.append extend insert_before insert_after remove(safe) sort, Node.append/prepend, "
+    "alphabet: Value(...), const_value= (also a tensor whose name cannot be assigned), Node(...) (inputs, num_outputs / "
+    "outputs, graph=, name, GRAPH / GRAPHS attributes, a non-Attr attribute), Graph(...), replace_input_with, "
+    "resize_inputs/outputs, Value.replace_all_uses_with, every mutator of the tracked input/output lists (append extend "
+    "insert pop remove clear [i]= [a:b:c]= del[i] del[a:b:c] reverse += *=) and of the initializer mapping (d[k]= del d[k] "
+    "add pop popitem clear update |= setdefault register_initializer), Value.name=, Graph/Function.append extend "
+    "insert_before insert_after remove(safe) sort, Node.append/prepend, node.attributes[k] = graph attribute(s), "
     "convenience.replace_all_uses_with / rename_values / replace_nodes_and_values",
-    "arguments are existing objects of the right class (the model is typed); Value(producer=...), the raw "
-    "Node.graph setter, underscore attributes, `.data` and list.sort()/copy() are outside the alphabet",
-    "the node sequence is modelled as a duplicate-free list with the documented move semantics; "
-    "C01_node_sequence_refined instantiates it with C11's pointer-level LinkedSet model (toList after each operation = "
-    "the kernel's list function, raise flags agree); Graph.sort enters the model as 'some permutation of each "
-    "involved graph' (C12 decides which)",
-    "const tensors accept renaming, except where a refusing tensor (read-only name) is generated: only on values that "
-    "already have a non-empty name, so that Value.name= / rename_values meet it but the implicit naming paths (name "
-    "authority, initializers[key] = unnamed value) never do",
-    "Python asserts used as internal consistency checks are not error points of the model; inside the mutation "
-    "phase of one call the model may order primitive effects differently from the statements (no error point in between)",
+    "OUTSIDE the alphabet (public but not modelled): the raw `Node.graph = x` setter, `Node.name = ...`, list.sort()/copy() "
+    "of the tracked lists, underscore attributes and `.data`; `Value(producer=n, index=i)` is generated and recorded as "
+    "known finding D87 (it creates a value that names a producer which does not list it)",
+    "arguments are existing objects of the right class (the model is typed)",
+    "the node sequence is a duplicate-free list with the documented move semantics; C01_node_sequence_refined instantiates it "
+    "with C11's pointer-level LinkedSet model; Graph.sort enters the model as 'some permutation of each involved graph' "
+    "(C12 decides which); node attributes are not part of the model state (attribute edits are a no-op of the model; the "
+    "harness generates GRAPH / GRAPHS attributes, shared graphs and later assignment for the traversal-dependent calls)",
+    "model = validation, then a mutation phase of guarded primitives whose failing check makes the call raise with the "
+    "partial state (ghost counter `late`); C01_mutation_faithful proves that no check fails after a passed validation; "
+    "inside one mutation phase the model may order primitive effects differently from the Python statements; Python "
+    "asserts are not error points",
+    "slice positions are clamped / filtered / de-duplicated in the model (identity on the positions Python computes); "
+    "initializers.update is validated by a dry run of the per-entry checks (the code keeps a pending-names table)",
+    "values whose const tensor refuses renaming meet the implicit naming paths: the model follows proposed fix D85 "
+    "(probe in the validation phase); on the unfixed code these shapes are the known finding D85",
     "the name authority's generated names use a bounded loop (|seen|+1 iterations suffice: C15)",
 ]
 
